@@ -13,7 +13,7 @@
 From Coq Require Import List NArith ZArith Bool Lia Arith.
 From Falco Require Import Base.Res Base.Bytes Base.Utf8 Gen.Tokens Model.Lex Model.Pump
   Proofs.PumpTotal Model.Decor Proofs.DecorProofs.
-From Falco Require Model.ParseBase Model.ParseDecl.
+From Falco Require Model.ParseBase Model.ParseDecl Model.Ast Model.Yield Proofs.ParseDeclYield.
 Import ListNotations.
 
 Section Real.
@@ -200,6 +200,30 @@ Proof.
   destruct (pump_strip_real is_ann e e' ts ts' n n' He He' NP NP' Hn Hn' D) as (ms & ms' & R & R' & S & _).
   exists ms, ms'. split; [exact R|]. split; [exact R'|]. unfold to_ptoks. rewrite S. split; reflexivity.
 Qed.
+(* Composition with C02's parse_yield (builder parse): the tree the parser model builds from a DECORATED
+   stream is the tree of the stripped stream, and its tokens (Yield.ystmt: every declaration, statement and
+   expression once, in source order) are exactly the significant tokens of the decorated stream - no
+   comment, line feed or blank is part of the tree, for EVERY program the parser model accepts.
+   [body]: the pumped tokens without the final EOF meta (parse_vcl takes the tokens before EOF). *)
+Definition body (ms : list meta) : list ParseBase.token := map tok_of (removelast (significant_real ms)).
+
+Theorem decorated_parse_yield (is_ann : str -> bool) e e' ts ts' n n' :
+  is_eof e = true -> is_eof e' = true ->
+  no_pragma ts -> no_pragma ts' -> (S (length ts) <= n)%nat -> (S (length ts') <= n')%nat ->
+  decorate (absS is_ann e ts) (absS is_ann e' ts') ->
+  exists ms ms', pump_all n e ts = OK ms /\ pump_all n' e' ts' = OK ms' /\
+    ParseDecl.parse_vcl fok (body ms') = ParseDecl.parse_vcl fok (body ms) /\
+    forall v, ParseDecl.parse_vcl fok (body ms) = ParseBase.POK v -> ParseDeclYield.no_eof (body ms) = true ->
+              ParseDecl.parse_vcl fok (body ms') = ParseBase.POK v /\
+              body ms' = flat_map Yield.ystmt (Ast.vstmts v).
+Proof.
+  intros He He' NP NP' Hn Hn' D.
+  destruct (pump_strip_real is_ann e e' ts ts' n n' He He' NP NP' Hn Hn' D) as (ms & ms' & R & R' & S & _).
+  exists ms, ms'. split; [exact R|]. split; [exact R'|].
+  assert (B : body ms' = body ms) by (unfold body; rewrite S; reflexivity).
+  split; [rewrite B; reflexivity|]. intros v Hv Hn0. rewrite B. split; [exact Hv|].
+  apply (ParseDeclYield.parse_vcl_yield fok _ _ Hv Hn0).
+Qed.
 End Parse.
 
 (* inserting a real ordinary COMMENT token anywhere in a real stream is a decoration *)
@@ -240,3 +264,32 @@ Proof.
              (ex_tok T_COMMENT 99 5) ltac:(repeat constructor) eq_refl eq_refl).
   - vm_compute. exact (d_lf_free [Sig (T_SET, [115%N]); Cmt] [Sig (T_IDENT, [120%N]); Sig (T_SEMICOLON, [59%N]); Sig (T_EOF, [])] eq_refl).
 Qed.
+
+(* witness for decorated_parse_yield: `sub f { esi ; }` and `sub /* c */ f {` LF `esi ; }` through the real
+   pump and the real parser model; the token-type names of the lexer model are decoded by their spelling *)
+Definition ex_type_of (ty : str) : TokenTypes.ttype :=
+  match find (fun t => str_eqb (map (fun a => N.of_nat (Ascii.nat_of_ascii a)) (String.list_ascii_of_string (TokenTypes.tname t))) ty)
+             TokenTypes.all_ttypes with
+  | Some t => t
+  | None => TokenTypes.T_ILLEGAL
+  end.
+Definition ex_tok_of (k : str * str) : ParseBase.token :=
+  ParseBase.Tok (ex_type_of (fst k)) (map (fun n => Bytes.n2b n) (snd k)) 0.
+Definition ex_sub : list token :=
+  [mkTok T_SUBROUTINE [115;117;98] 1 1; mkTok T_IDENT [102] 1 5; mkTok T_LEFT_BRACE [123] 1 7;
+   mkTok T_ESI [101;115;105] 1 9; mkTok T_SEMICOLON [59] 1 13; mkTok T_RIGHT_BRACE [125] 1 15]%N.
+Definition ex_sub_decorated : list token :=
+  [mkTok T_SUBROUTINE [115;117;98] 1 1; mkTok T_COMMENT [99] 1 5; mkTok T_IDENT [102] 1 13; mkTok T_LEFT_BRACE [123] 1 15;
+   mkTok T_LF [10] 1 16; mkTok T_ESI [101;115;105] 2 3; mkTok T_SEMICOLON [59] 2 7; mkTok T_RIGHT_BRACE [125] 2 9]%N.
+
+Example decorated_parse_example :
+  match pump_all 20 ex_eof ex_sub, pump_all 20 ex_eof ex_sub_decorated with
+  | OK ms, OK ms' =>
+    match ParseDecl.parse_vcl (fun _ => true) (body ex_tok_of ms) with
+    | ParseBase.POK v => ParseDecl.parse_vcl (fun _ => true) (body ex_tok_of ms') = ParseBase.POK v
+                         /\ length (Ast.vstmts v) = 1%nat
+    | _ => False
+    end
+  | _, _ => False
+  end.
+Proof. vm_compute. split; reflexivity. Qed.
